@@ -1,8 +1,8 @@
 #!/bin/bash
 # run every stored seeded change against the check of the property it breaks; one line per change
-OUT=/verif/seeded/RESULTS.tsv
+OUT=${OUT:-/verif/seeded/RESULTS.tsv}
 : > $OUT.tmp
-for d in /verif/seeded/C*/; do
+for d in /verif/seeded/${ONLY:-C*}/; do
   id=$(basename $d); pid=${id%-*}
   [ "$pid" = "C16" ] && continue
   res=$(timeout 1500 /verif/tools/trymut.sh $id $pid 2>/dev/null)
@@ -10,6 +10,8 @@ for d in /verif/seeded/C*/; do
   head1=$(echo "$res" | grep -E "^\[" | head -1)
   nviol=$(echo "$res" | grep -c "^VIOLATION")
   nrep=$(echo "$res" | grep "^VIOLATION" | grep -vc "no-failing-input-found")
-  echo -e "$id\t$pid\texit=$rc\tviolation_lines=$nviol\treplayed=$nrep\t$head1" >> $OUT.tmp
+  nb=$(echo "$res" | grep "^VIOLATION" | grep -c "replay=replays/[A-Z0-9]*/bounded_")
+  obs=$(echo "$res" | grep "^VIOLATION" | grep -v "bounded_" | sed -E 's#.*replay=replays/[A-Z0-9]+/##; s#_[0-9a-f]{8}\.json.*##; s#@L[0-9]+##' | sort -u | tr '\n' ' ')
+  echo -e "$id\t$pid\texit=$rc\tviolation_lines=$nviol\treplayed=$nrep\tbounded=$nb\t$head1\t$obs" >> $OUT.tmp
 done
 mv $OUT.tmp $OUT
